@@ -66,14 +66,21 @@ example : IsRoot witnessStore 0 ∧ occurs 8 witnessStore 0 witnessB = some true
 
 /- T5, full statement: with the store acyclic, `unify` keeps it acyclic and
 `find` / `resolve` / `convert` terminate.
-   PROVED below for the model `Unify.unify` with the guard table generated from
-the source: any answer of `unify_inner` — `Some` or `None` — leaves an acyclic
-store acyclic (for every fuel, every `Defs`); in an acyclic store whose
-variables all exist `find_ref` returns from every index, and every deep
-traversal (`Unify.walk`: resolve, then walk into every child — the recursion
-scheme of `Type::display`, `TypeInfo::convert`, `occurs`) returns from every
-type; one `UnionFind::find` WITH path compression returns what `find_ref`
-returns and leaves the store acyclic (`find_compression_harmless`).
+   PROVED below for the model of the ENTRY POINT `TypeChecker::unify(expected,
+found)` (`Unify.unify`: the early return for a found `!`, then `unify_inner`;
+the translator checks that nothing else calls `unify_inner`) with the guard
+table and the two facts about the never type generated from the source
+(`innerNeverArm`: `unify_inner` has no arm for `!` any more; `entryNeverFound`:
+`unify` returns `resolve_type(expected)` when the found type is `!`): any
+answer — `Ok` or the mismatch error — leaves an acyclic store acyclic (for
+every fuel, every `Defs`); in an acyclic store whose variables all exist
+`find_ref` returns from every index, and every deep traversal (`Unify.walk`:
+resolve, then walk into every child — the recursion scheme of `Type::display`
+that renders the mismatch error, of `TypeInfo::convert`, of `occurs`) returns
+from every type; one `UnionFind::find` WITH path compression returns what
+`find_ref` returns and leaves the store acyclic (`find_compression_harmless`).
+`unify_terminates_any_never_handling` is the same for EITHER value of the two
+never facts (the statement does not depend on where `!` is handled).
    MISSING: (1) path compression is proved harmless for one lookup but is not
 threaded through the model of `unify_inner` (it looks variables up like
 `find_ref`); (2) in the four arms that bind a record variable the model gives
@@ -82,13 +89,37 @@ unreachable; not proved); (3) no differential run of the Lean `unify` against
 the real one (the tie is the generated facts). Covered by the crash oracle
 (boundary stream `cyclic-type`). -/
 theorem unify_terminates_partial (D : Defs) (f : Nat) (σ σ' : Store) (a b : Ty) (r : Option Ty)
-    (hσ : Acyclic σ) (h : unify setGuard D f σ a b = some (r, σ')) :
+    (hσ : Acyclic σ) (h : unify setGuard innerNeverArm entryNeverFound D f σ a b = some (r, σ')) :
     Acyclic σ' ∧
     (Closed σ' →
       (∀ i, i < σ'.length → ∃ f t, findRef f σ' i = some t) ∧
       (∀ t, (∀ v ∈ subVars t, v < σ'.length) → ∃ f, walk f σ' t = some ())) :=
-  have h' := (unify_acyclic_aux setGuard guards_ok D f).1 σ a b r σ' hσ h
+  have h' := unify_acyclic setGuard guards_ok innerNeverArm entryNeverFound D f σ a b r σ' hσ h
   ⟨h', fun hc => ⟨findRef_terminates h' hc, fun t ht => walk_terminates h' hc t ht⟩⟩
+
+/-- the same wherever the never type is handled (`N`: the arm `(Never, x) |
+(x, Never) => x` in `unify_inner`; `T`: the early return of `unify`), and for
+`unify_inner` called directly: the occurs checks as written keep the store
+acyclic. -/
+theorem unify_terminates_any_never_handling (N T : Bool) (D : Defs) (f : Nat) (σ σ' : Store) (a b : Ty)
+    (r : Option Ty) (hσ : Acyclic σ)
+    (h : unify setGuard N T D f σ a b = some (r, σ') ∨ unifyInner setGuard N D f σ a b = some (r, σ')) :
+    Acyclic σ' ∧
+    (Closed σ' →
+      (∀ i, i < σ'.length → ∃ f t, findRef f σ' i = some t) ∧
+      (∀ t, (∀ v ∈ subVars t, v < σ'.length) → ∃ f, walk f σ' t = some ())) :=
+  have h' : Acyclic σ' := h.elim (unify_acyclic setGuard guards_ok N T D f σ a b r σ' hσ)
+    ((unify_acyclic_aux setGuard guards_ok N D f).1 σ a b r σ' hσ)
+  ⟨h', fun hc => ⟨findRef_terminates h' hc, fun t ht => walk_terminates h' hc t ht⟩⟩
+
+/-- non-vacuity (the never handling of the current source written out: `N =
+false`, `T = true`): a found `!` fits an expected `u8` (type name 0) and binds
+nothing; an expected `!` does not take a found `u8`; an unset variable is bound -/
+example : unify setGuard false true noDefs 4 [] (.name 0 []) .never = some (some (.name 0 []), []) ∧
+    unify setGuard false true noDefs 4 [] .never (.name 0 []) = some (none, []) ∧
+    unify setGuard false true noDefs 4 [.var 0] (.var 0) (.name 0 []) =
+      some (some (.name 0 []), [.name 0 []]) :=
+  ⟨rfl, rfl, rfl⟩
 
 /-- `UnionFind::find` with its path compression (`self.inner[index] =
 new_t.clone()` on the way back): it returns what `find_ref` returns and the
@@ -100,22 +131,38 @@ theorem find_compression_harmless (f : Nat) (σ σ' : Store) (i : Nat) (t : Ty) 
 /-- non-vacuity: a chain `2 → 1 → 0` is compressed to `2 → 0`, `1 → 0` -/
 example : findCompress 3 [.var 0, .var 0, .var 1] 2 = some (.var 0, [.var 0, .var 0, .var 0]) := rfl
 
-/-- non-vacuity: the witness store is acyclic, and the repaired `unify_inner`
-answers `None` on it without touching the store. -/
+/-- non-vacuity: the witness store is acyclic, and `unify` as it is now answers
+`None` on it without touching the store. -/
 example : Acyclic witnessStore ∧
-    unify setGuard noDefs 12 witnessStore witnessA witnessB = some (none, witnessStore) :=
-  ⟨witness_acyclic, new_run⟩
+    unify setGuard innerNeverArm entryNeverFound noDefs 12 witnessStore witnessA witnessB = some (none, witnessStore) :=
+  ⟨witness_acyclic, new_run _ _⟩
 
-/-- T5 refuted on the unchanged tree: without an occurs check in the arms that
-bind a record variable (`oldGuard`), unifying `a = { f: List[!] }` with
-`b = { f: List[List[a]] }` succeeds — the never type unifies with `List[a]`
-without binding anything — and binds `a` to `b`: the store becomes cyclic, and
-every later traversal of `a` recurses until the stack overflows. -/
+/-- T5 refuted for the FIRST pre-fix tree (frozen: `unify_inner` with the arm
+`(Never, x) | (x, Never) => x`, `unify` without the early return, no occurs
+check in the arms that bind a record variable — `oldGuard`): unifying
+`a = { f: List[!] }` with `b = { f: List[List[a]] }` succeeds — the never type
+unifies with `List[a]` without binding anything — and binds `a` to `b`: the
+store becomes cyclic, and every later traversal of `a` recurses until the
+stack overflows. Repaired by e3877c1 (the occurs checks). Since 767c5e7 (`!`
+handled in `unify` only) the two field types do not unify at all:
+`old_guard_new_arms`. -/
 theorem unify_old_creates_cycle :
     Acyclic witnessStore ∧
-    ∃ σ', unify oldGuard noDefs 6 witnessStore witnessA witnessB = some (some witnessB, σ') ∧
+    ∃ σ', unify oldGuard true false noDefs 6 witnessStore witnessA witnessB = some (some witnessB, σ') ∧
       ¬ Acyclic σ' :=
   ⟨witness_acyclic, [witnessB, witnessB], old_run,
     no_two_cycle (i := 0) (j := 1) ⟨witnessB, rfl, by decide⟩ ⟨witnessB, rfl, by decide⟩⟩
+
+/-- the occurs check in front of the `set` of a record variable is still what
+the proof rests on: with the arms of the current source, a type definition that
+ignores its argument (model level: `phantomDefs`) and no check (`oldGuard`),
+`a = { f: () }` unified with `T7[a]` makes the store cyclic; with the check as
+written the answer is `None` and the store is untouched. -/
+theorem record_occurs_check_needed :
+    (∃ σ', unify oldGuard false true phantomDefs 6 [.recordVar 0 [0] [.unit]] (.var 0) (.name 7 [.var 0]) =
+        some (some (.name 7 [.var 0]), σ') ∧ ¬ Acyclic σ') ∧
+    unify setGuard false true phantomDefs 6 [.recordVar 0 [0] [.unit]] (.var 0) (.name 7 [.var 0]) =
+      some (none, [.recordVar 0 [0] [.unit]]) :=
+  ⟨⟨_, phantom_run.1, no_two_cycle (i := 0) (j := 0) ⟨_, rfl, by decide⟩ ⟨_, rfl, by decide⟩⟩, phantom_run.2⟩
 
 end RotoV.C06
